@@ -296,6 +296,11 @@ fn do_call(c: &J, idx: usize) {
         }
         _ => tool_error("unknown op"),
     };
+    // {"expect": id}: program order within this thread guarantees the outcome (its own registration came first and nobody replaces it)
+    let res = match c.get("expect").and_then(|e| e.as_str()) {
+        Some(e) if res != e && !res.starts_with("panic") => format!("other:expected {} got {}", e, res),
+        _ => res,
+    };
     emit(json!({"ev": "ret", "t": tid(), "i": idx, "res": res}));
 }
 
